@@ -276,6 +276,7 @@ def run(facts, tier):
     table = c09.r09_1(facts, res)
     c09.r09_2(facts, res)
     c09.r09_2b(facts, res, table)
+    c09.r09_2c(facts, res)
     c09.r09_3(facts, res)
     res.functions_analysed = len(AXIS_SHAPE) + 4
     return res
